@@ -471,7 +471,7 @@ def run(ctx):
                 dist["oracle_failures"] += 1
                 m = re.search(r"!ORACLE\((\w+)", " ".join(io))
                 kind = m.group(1) if m else "crash"
-                key = "oracle:%s:%s" % (kind, signature(small))
+                key = "oracle:%s:%s" % (kind, signature(small, kind))
                 if key not in seen_keys:
                     seen_keys.add(key)
                     ctx.failing_input(key, text)
@@ -496,10 +496,10 @@ def run(ctx):
     ctx.cov["traces_validated_against_impl"] = ctx.cov["evaluations"]
 
 
-def signature(small):
+def signature(small, kind="contents"):
     """what a minimised failing case is about: the operation kinds it still contains"""
     kinds = []
-    for o in small:
+    for o in small if kind == "contents" else []:
         w = o.split()
         if len(w) >= 4 and w[1] == "insn" and w[3] == "0" or len(w) == 3 and w[1] == "insr":
             return "insert-zero-count"      # insert(pos, 0, v) / insert(pos, first, first)
